@@ -357,4 +357,50 @@ theorem passthrough_exit {st t u : PState} (h : Coupled st t u) (hst : Inv st) :
     rw [this]
     exact clip_id hcu
 
+/-- two compositor states that cannot be told apart: same shape/alpha bookkeeping and the
+same colour wherever the accumulated alpha is not zero -/
+structure Same (s t : PState) : Prop where
+  sg : s.sg = t.sg
+  ag : s.ag = t.ag
+  a : s.a = t.a
+  a0 : s.a0 = t.a0
+  c0 : s.c0 = t.c0
+  c : t.a ≠ 0 → ∀ ch, s.c ch = t.c ch
+
+theorem Same.refl (s : PState) : Same s s := ⟨rfl, rfl, rfl, rfl, rfl, fun _ _ => rfl⟩
+
+/-- a source with zero shape (hence zero alpha) changes nothing observable -/
+theorem applySource_zero (bl : Color → Color → Color) (st : PState) (hst : Inv st) (color : Color) :
+    Same (applySource bl st color 0 0 false) st := by
+  refine ⟨by simp, by simp, ?_, rfl, rfl, ?_⟩
+  · rw [applySource_a _ _ _ _ _ hst]; simp
+  · intro ha ch
+    rw [applySource_c _ _ _ _ _ hst]
+    unfold stepNum
+    simp only [sub_zero, one_mul, zero_mul, add_zero, union_zero]
+    unfold divide
+    rw [if_neg ha]
+    have : st.a * st.c ch / st.a = st.c ch := by field_simp
+    rw [this]; exact clip_id (hst.c ch)
+
+/-- a source with zero alpha (zero opacity, any shape) leaves alpha and colour alone; only the
+accumulated *shape* grows -/
+theorem applySource_zero_alpha (bl : Color → Color → Color) (st : PState) (hst : Inv st) (color : Color) (shape : Rat) :
+    let r := applySource bl st color shape 0 false
+    r.ag = st.ag ∧ r.a = st.a ∧ (st.a ≠ 0 → ∀ ch, r.c ch = st.c ch) := by
+  intro r
+  refine ⟨by simp [r], ?_, ?_⟩
+  · show (applySource bl st color shape 0 false).a = st.a
+    rw [applySource_a _ _ _ _ _ hst]; simp
+  · intro ha ch
+    show (applySource bl st color shape 0 false).c ch = st.c ch
+    rw [applySource_c _ _ _ _ _ hst]
+    unfold stepNum
+    simp only [sub_zero, one_mul, zero_mul, add_zero, union_zero]
+    unfold divide
+    rw [if_neg ha]
+    have : st.a * st.c ch / st.a = st.c ch := by field_simp
+    rw [this]; exact clip_id (hst.c ch)
+
+
 end PsdVerif.Composite
